@@ -298,8 +298,17 @@ def unesc(s):
     return re.sub(r"%([0-9A-F]{2})", lambda m: chr(int(m.group(1), 16)), s)
 
 
-def cfg_text(items):
-    return "".join("%s=%s\n" % (n, t) for n, ts in items for t in ts)
+def cfg_text(items, decor=None):
+    """the text of a configuration file.  decor: {str(index of the item): [before the name, before '=', after '=', after the
+    value]} - white space and comments that boost's reader drops (Model/CfgText.v read_line), for single-token items"""
+    if not decor:
+        return "".join("%s=%s\n" % (n, t) for n, ts in items for t in ts)
+    out = []
+    for i, (n, ts) in enumerate(items):
+        d = decor.get(str(i))
+        for t in ts:
+            out.append("%s%s%s=%s%s%s\n" % (d[0], n, d[1], d[2], t, d[3]) if d and len(ts) == 1 else "%s=%s\n" % (n, t))
+    return "".join(out)
 
 
 def model_text(c):
@@ -380,7 +389,8 @@ def run_cases(ctx, cases, tg=None):
                     f.write(cfg_text(c.dflt))
             if c.cfg is not None and c.cfg["state"] == "file":
                 with open(os.path.join(wd, c.cfg["file"]), "w") as f:
-                    f.write(cfg_text(c.cfg["items"]))
+                    # raw_text: a file taken over verbatim (the binary's own saved file), not written from items
+                    f.write(c.cfg["raw_text"] if c.cfg.get("raw_text") is not None else cfg_text(c.cfg["items"], c.cfg.get("decor")))
             av = getattr(c, "raw_argv", None) or c.argv()
             xav = getattr(c, "raw_xargv", None) if hasattr(c, "raw_argv") else c.xargv()
             xav = xav or []
@@ -402,7 +412,7 @@ def run_cases(ctx, cases, tg=None):
         for c in cases:
             sp = os.path.join(root, c.cid, "saved.cfg")
             res[c.cid] = dict(impl=impl.get(c.cid), model=model.get(c.cid),
-                              saved=open(sp).read() if os.path.exists(sp) else None)
+                              saved=open(sp, newline="").read() if os.path.exists(sp) else None)      # no newline translation: a value may hold a CR
         return res
     finally:
         shutil.rmtree(root, ignore_errors=True)
@@ -487,7 +497,7 @@ def status(r, pre=""):
     return r[pre + "status"][0][0]
 
 
-def compare(c, res, by_getter=True):
+def compare(c, res, by_getter=True, reload_expect=None):
     """model vs implementation; -> list of differences.  by_getter: a member of the model is compared with the getter
     that the option bound to it is documented to feed (C20: a wrong `&member` binding is a difference); otherwise
     with the member of the same name (C13: the round trip does not depend on which member an option is bound to)"""
@@ -513,7 +523,7 @@ def compare(c, res, by_getter=True):
     vt_name = {o["name"]: o["ty"] for o in info()["table"].values()}
     ms = [(p[0], int(p[1])) for p in m.get("saved", [])]
     isv = []
-    for line in (res["saved"] or "").splitlines():
+    for line in (res["saved"] or "").split("\n"):      # lines end at LF only (a value may hold a CR)
         if line.startswith("#") or not line.strip():
             continue
         n, _, t = line.partition("=")
@@ -534,6 +544,10 @@ def compare(c, res, by_getter=True):
             g = lbl.get(k, k)
             if k in UNINIT or g not in iv or v is None:
                 continue
+            if reload_expect and k in reload_expect:
+                # the token model hands the reload the saved TOKEN; for a string a line cannot hold, the text model
+                # (Model/CfgText.v, extracted) says what the reader makes of the saved TEXT
+                v = reload_expect[k]
             if not same(v, iv[g]):
                 d.append("reload var %s (getter %s): model %r, impl %r" % (k, g, v, iv[g]))
     if c.xcli and status(m, "r") == "run":
@@ -910,6 +924,93 @@ def gen_override(ctx, cid):
     return c
 
 
+# ------------------------------------------------------------------------------------ strings and the text of a configuration file
+
+WS = " \t\r\n"
+# values a line `name=value` can hold (cfg_representable of Model/CfgText.v): inner blanks and tabs, quotes, '=', backslashes ...
+STR_KEPT = ["scan 01/run.h5", "my results/a b c.hdf5", "x\ty.h5", 'q"uote".h5', "it's.h5", "a=b.h5", "k=v=w.txt", "back\\slash.h5",
+            "sp  ace.dat", "(1) copy.h5", "[sec].h5", "semi;colon.h5", '"all quoted.h5"', "a = b"]
+# ... and values it cannot hold: white space at either end is trimmed, '#' starts a comment
+STR_LOST = [" lead.h5", "trail.h5 ", "\ttab-lead.h5", "tab-trail.h5\t", "run#3.h5", "#hash.h5", "a #b.h5", "  both  ", "cr-trail.h5\r"]
+
+
+def representable(v):
+    """Python mirror of cfg_representable (compared with the extracted function on every string of a run)"""
+    return "#" not in v and "\n" not in v and (v == "" or (v[0] not in WS and v[-1] not in WS))
+
+
+def hexs(s):
+    return s.encode("utf-8", "surrogateescape").hex() or "-"
+
+
+def unhex(h):
+    return "" if h == "-" else bytes.fromhex(h).decode("utf-8", "surrogateescape")
+
+
+def text_model(queries):
+    """the extracted text model (family cfgtext).  queries: ("reread", id, name, value) | ("file", id, text)
+    -> {id: dict(back=None | [(name, value)], repr=bool, written=str)} / {id: dict(items=None | [(name, value)])}"""
+    if not queries:
+        return {}
+    txt = "".join("reread %s %s %s\n" % (q[1], hexs(q[2]), hexs(q[3])) if q[0] == "reread" else "file %s %s\n" % (q[1], hexs(q[2]))
+                  for q in queries)
+    rc, out, err = run_driver(vp_coq.model_path("cfgtext"), txt, timeout=300)
+    if rc != 0:
+        raise RuntimeError("model_cfgtext: rc=%d %s" % (rc, err[-500:]))
+    res = {}
+
+    def pairs(p):
+        if p[0] == "none":
+            return None
+        return [(unhex(p[1 + 2 * k]), unhex(p[2 + 2 * k])) for k in range(int(p[0]))]
+    for cid, r in parse_cases(out).items():
+        if "back" in r:
+            res[cid] = dict(back=pairs(r["back"][0]), repr=r["repr"][0][0] == "1", written=unhex(r["written"][0][0]))
+        else:
+            res[cid] = dict(items=pairs(r["items"][0]))
+    return res
+
+
+def string_opts():
+    inf = info()
+    return [o for o in inf["table"].values() if o["kind"] == "KCanon" and o["ty"] == "TString" and o["name"] != inf["cfgopt"]]
+
+
+def gen_stringy(ctx, cid):
+    """a small legal invocation plus 1-3 string options whose values have blanks, tabs, quotes, '=', backslashes (kept by a
+    config-file line) or white space at an end / a '#' (not kept): on the command line, or - kept values only - in the parent
+    configuration file, decorated with the white space and comments boost's reader drops"""
+    rng = ctx.rng
+    inf = info()
+    c = gen_case(ctx, cid, "short")
+    sopts = string_opts()
+    pick = rng.sample(sopts, rng.randint(1, min(3, len(sopts))))
+    have_file = c.cfg is not None and c.cfg["state"] == "file"
+    for o in pick:
+        c.cli = [x for x in c.cli if x.get("opt") != o["name"]]
+        if have_file:
+            c.cfg["items"] = [it for it in c.cfg["items"] if it[0] != o["name"]]
+        if c.dflt is not None:
+            c.dflt = [it for it in c.dflt if it[0] != o["name"]]
+        where = rng.choice(["cli", "cli", "cfg"]) if have_file else "cli"
+        if where == "cfg":
+            v = rng.choice(STR_KEPT)
+            c.cfg["items"].append((o["name"], [v]))
+            c.cfg.setdefault("decor", {})[str(len(c.cfg["items"]) - 1)] = [
+                rng.choice(["", "", " ", "\t", "   "]), rng.choice(["", "", " ", "\t"]), rng.choice(["", "", " ", "  \t"]),
+                rng.choice(["", "", " ", "\t", "   # the results", "\t#x=1", " #"])]
+            c.tags.add("string-in-file")
+        else:
+            lost = rng.random() < 0.3
+            v = rng.choice(STR_LOST if lost else STR_KEPT)
+            k = "S" if o["short"] and rng.random() < 0.4 else "L"
+            c.cli.append(dict(kind=k, name=o["short"] if k == "S" else o["name"], toks=[v], opt=o["name"],
+                              eq=(k == "L" and rng.random() < 0.3)))
+            c.tags.add("string-lost" if lost else "string-kept")
+    c.tags.add("stringy")
+    return c
+
+
 # ------------------------------------------------------------------------------------ property oracles (on the implementation)
 
 def spec_resolve(name, kind):
@@ -1076,7 +1177,8 @@ def oracle_c13(ctx, c, res):
         if k == "alpha0" and a.get("f_s") != 0:
             continue      # not used by main when the synchrotron frequency is given (main.cpp:231-236)
         if not same(v, b.get(k)):
-            cause = ("alpha0-zeroed" if k == "alpha0" else "vector-not-saved" if k == "I_b" else
+            cause = ("string-not-representable" if isinstance(v, str) and not representable(v) else
+                     "alpha0-zeroed" if k == "alpha0" else "vector-not-saved" if k == "I_b" else
                      "alias-dropped" if "alias" in c.tags and k in ("V_RF", "steps_per_Ts", "f_s") else "value-changed")
             ctx.violation("impl-oracle", "%s differs after save and reload (%s)" % (k, cause), case=c.replay(),
                           observed={k: b.get(k)}, expected={k: v}, sig=dict(kind="roundtrip", var=k, cause=cause))
